@@ -190,12 +190,19 @@ class SmtpSession(object):
         self.envelope.parse(data)
 
         results = self.handoff(self.envelope)
-        if isinstance(results[0][1], QueueError):
+        # The message may have been split into several envelopes, report
+        # success only if every one of them was queued.
+        error = results[0][1]
+        for _, result in results:
+            if isinstance(result, (QueueError, RelayError)):
+                error = result
+                break
+        if isinstance(error, QueueError):
             default_reply = Reply('451', '4.3.0 Error queuing message')
-            queue_reply = getattr(results[0][1], 'reply', default_reply)
+            queue_reply = getattr(error, 'reply', default_reply)
             reply.copy(queue_reply)
-        elif isinstance(results[0][1], RelayError):
-            relay_reply = results[0][1].reply
+        elif isinstance(error, RelayError):
+            relay_reply = error.reply
             reply.copy(relay_reply)
         else:
             reply.message = '2.6.0 Message accepted for delivery'
